@@ -251,8 +251,9 @@ fn judge(case: &Case, oc: &Outcome) -> Vec<Verdict> {
         "graceful" => {
             let sig_t = p["signal_ms"].as_u64().unwrap_or(0);
             // requests whose handler had not started when the signal fired must never start
+            let sig_seq = oc.gate_open_seq.get(7).copied().unwrap_or(0);
             for r in &oc.reqs {
-                if r.t_ms > sig_t {
+                if r.t_ms > sig_t || (sig_seq != 0 && r.seq > sig_seq) {
                     v.push(Verdict {
                         class: "request-started-after-shutdown-signal",
                         sig: p["phase"].as_str().unwrap_or("").to_string(),
@@ -261,7 +262,7 @@ fn judge(case: &Case, oc: &Outcome) -> Vec<Verdict> {
                 }
             }
             // the request in flight at the signal is still answered
-            let inflight: Vec<usize> = oc.reqs.iter().filter(|r| r.t_ms <= sig_t).map(|r| r.idx).collect();
+            let inflight: Vec<usize> = oc.reqs.iter().filter(|r| r.t_ms <= sig_t && (sig_seq == 0 || r.seq < sig_seq)).map(|r| r.idx).collect();
             let finals: Vec<&RefResp> = s.resps.iter().filter(|r| !r.is_interim()).collect();
             for &i in &inflight {
                 match finals.iter().find(|r| r.req_idx_header() == Some(i)) {
@@ -527,13 +528,21 @@ fn graceful(rng: &mut Rng, phase_fixed: Option<&'static str>) -> Case {
             events.push((0, Act::Push(req(0))));
         }
     }
-    events.push((sig, Act::Gate(7, 1)));
+    // the signal; sometimes a request becomes readable at the very same instant, so that one poll
+    // sees both (signal first: the request must not be started)
+    let same_poll = rng.chance(1, 3) && matches!(phase, "idle" | "between-requests");
+    if same_poll {
+        let idx = if phase == "idle" { 0 } else { 1 };
+        events.push((sig, Act::Batch(vec![Act::Gate(7, 1), Act::Push(req(idx))])));
+    } else {
+        events.push((sig, Act::Gate(7, 1)));
+    }
     // a request arriving after the signal must not be started
-    if rng.chance(1, 2) && phase != "partial-head" {
+    if rng.chance(1, 2) && phase != "partial-head" && !same_poll {
         let next = oc_next_idx(phase);
         events.push((sig + grid(rng.range(50, 1500) as u64), Act::Push(req(next))));
     }
-    Case { kind: "graceful", cfg, progs, events, horizon_ms: sig + 4000, params: json!({"signal_ms": sig, "phase": phase, "respond_after_signal": respond_after}) }
+    Case { kind: "graceful", cfg, progs, events, horizon_ms: sig + 4000, params: json!({"signal_ms": sig, "phase": phase, "respond_after_signal": respond_after, "same_poll_request": same_poll}) }
 }
 
 fn oc_next_idx(phase: &str) -> usize {
@@ -610,7 +619,7 @@ pub fn run(ctx: &Ctx, rep: &mut Reporter) {
             "slow-head" => format!("{}|never={}|blocked={}", rel(case.params["head_complete_ms"].as_u64().unwrap_or(0), case.cfg.req_timeout_ms.max(1)), case.params["head_never_completes"], case.params["shutdown_blocked"]),
             "keep-alive" => format!("{}|slow={}|n={}", case.params["ordering"].as_str().unwrap_or(""), case.params["slow_response"], case.params["requests_before_gap"]),
             "disconnect" => case.params["trigger"].as_str().unwrap_or("").to_string(),
-            _ => format!("{}|late-request={}", case.params["phase"].as_str().unwrap_or(""), case.events.iter().filter(|e| matches!(e.1, Act::Push(_)) && e.0 > case.params["signal_ms"].as_u64().unwrap_or(0)).count()),
+            _ => format!("{}|same-poll={}|late-request={}", case.params["phase"].as_str().unwrap_or(""), case.params["same_poll_request"], case.events.iter().filter(|e| matches!(e.1, Act::Push(_)) && e.0 > case.params["signal_ms"].as_u64().unwrap_or(0)).count()),
         };
         rep.sig(&format!("{}|{}|{}", case.kind, cfg_sig(&case.cfg), ord));
         if k < 4 {
